@@ -279,7 +279,10 @@ def rational_lists(quick, seed):
 def algebraic_lists(quick, seed):
     rnd = random.Random(f"c16a-{seed}")
     must = [["I", "-I"], ["sqrt(2)", "sqrt(3)"], ["1+sqrt(2)", "1-sqrt(2)", "3"], ["(1+sqrt(5))/2", "(1-sqrt(5))/2"], ["sqrt(2)", "2"], ["I", "-1"],
-            ["2**(1/3)", "2"], ["sqrt(2)", "sqrt(2)/2"], ["(1+I)/sqrt(2)", "I"], ["1+I", "1-I", "2"], ["sqrt(2)", "1/2", "I"]]
+            ["2**(1/3)", "2"], ["sqrt(2)", "sqrt(2)/2"], ["(1+I)/sqrt(2)", "I"], ["1+I", "1-I", "2"], ["sqrt(2)", "1/2", "I"],
+            # roots of unity next to a non-integer just outside the unit circle (the height bound of the LLL path depends on the
+            # leading coefficient of the minimal polynomial there), and far from it
+            ["I", "129/128"], ["I", "-I", "101/100"], ["I", "3/2"], ["-I", "1001/1000", "I"]]
     n = 10 if quick else 150
     out = list(must)
     for _ in range(n):
